@@ -368,6 +368,12 @@ func genPipeCase(r *hutil.Rand, i int) pipeCase {
 			c.SleepAt = append(c.SleepAt, r.Intn(len(sizes)))
 		}
 		c.SleepUs = 100 + r.Intn(1500)
+		if i%40 == 7 {
+			// a long silence in the middle of the stream (usually inside a record): a producer that stalls for a
+			// good fraction of a second must not change what is delivered
+			c.SleepAt = c.SleepAt[:1]
+			c.SleepUs = 130000 + r.Intn(60000)
+		}
 	}
 	return c
 }
